@@ -4,6 +4,7 @@ from pyvc.api import *
 M = ModuleSpec('src/pharmpy/model/statements.py', prop='C10')
 Sym = Opaque('Sym')
 Stmt = Opaque('Stmt', is_assignment=Bool, symbol=Sym)
+ExprT = Opaque('ExprT')
 
 TRUSTED = ['statements are opaque values with `is_assignment` (isinstance(.., Assignment)) and `symbol`; '
            'symbol == is an equivalence modelled by z3 equality; iterating a Statements object yields its '
@@ -14,7 +15,7 @@ def _symbolic():
     import ast
     import z3
     from pyvc.symexec import Val, BoolV, OutOfSubset
-    from pyvc.sym import TBool
+    from pyvc.sym import TBool, TSeq
 
     @M.intrinsic('isinstance')
     def _isinstance(ex, st, args, kwargs, node):
@@ -26,6 +27,32 @@ def _symbolic():
         if name == 'str' and isinstance(v, Val) and v.ty.key() == 'Sym':
             return BoolV(False)  # the contract's `symbol` is already an Expr
         raise OutOfSubset(f'isinstance(.., {name})')
+
+    stmt, symt, exprt = Stmt.resolve(), Sym.resolve(), ExprT.resolve()
+    MK = z3.Function('mk_assign', symt.sort(), exprt.sort(), stmt.sort())
+
+    def _mk(ex, st, args, kwargs, node):
+        # Assignment(symbol, expression): an assignment statement of that symbol (ASSUMED constructor law)
+        t = MK(args[0].t, args[1].t)
+        st.facts.add(z3.And(stmt.attr_fn('is_assignment')(t), stmt.attr_fn('symbol')(t) == args[0].t))
+        return Val(stmt, t)
+
+    M.intrinsics['Assignment'] = _mk
+    M.intrinsics['mk_assign'] = _mk
+    # Expr(x) of a value that is already an expression / symbol is that value; Statements(list) is the
+    # sequence of the list's elements; self._statements is the sequence self stands for
+    M.intrinsics['Expr'] = lambda ex, st, args, kwargs, node: args[0]
+    M.intrinsics['Statements'] = lambda ex, st, args, kwargs, node: ex.as_seq(args[0], st)
+
+    @M.intrinsic('attr:_statements')
+    def _stmts(ex, st, args, kwargs, node):
+        return args[0] if isinstance(args[0], Val) and isinstance(args[0].ty, TSeq) else NotImplemented
+
+    @M.intrinsic('method:_lookup_last_assignment')
+    def _lla(ex, st, args, kwargs, node):
+        # a call from another method of Statements is replaced by the callee's contract
+        c = ex.registry[M.path + ':Statements._lookup_last_assignment']
+        return ex.call_contract(c, list(args), kwargs, st, node, None)
 
 
 try:
@@ -39,6 +66,7 @@ M.contract(
     'Statements._lookup_last_assignment',
     params={'self': Seq(Stmt), 'symbol': Sym},
     locals={'ind': Option(Int), 'assignment': Option(Stmt)},
+    returns=Tuple(Option(Int), Option(Stmt)),
     ensures=[
         # no assignment of the symbol: (None, None)
         f'implies(not any({IS} for s in self), result[0] is None and result[1] is None)',
@@ -56,5 +84,82 @@ M.contract(
         'implies(ind is not None, 0 <= val(ind) < k and self[val(ind)].is_assignment and self[val(ind)].symbol == symbol'
         '        and val(assignment) == self[val(ind)]'
         '        and all(not (self[q].is_assignment and self[q].symbol == symbol) for q in range(val(ind) + 1, k)))',
+    ])],
+)
+
+# the public lookups: composition over the contract of _lookup_last_assignment (the callee's body is
+# not visible here, so a change of the tuple component taken or of the callee's meaning fails one of these)
+M.contract(
+    'Statements.find_assignment',
+    params={'self': Seq(Stmt), 'symbol': Sym},
+    returns=Option(Stmt),
+    ensures=[
+        f'implies(not any({IS} for s in self), result is None)',
+        f'implies(any({IS} for s in self), result is not None)',
+        'implies(result is not None, any(self[p].is_assignment and self[p].symbol == symbol and val(result) == self[p]'
+        '    and all(not (self[q].is_assignment and self[q].symbol == symbol) for q in range(p + 1, len(self)))'
+        '    for p in range(len(self))))',
+    ],
+)
+M.contract(
+    'Statements.find_assignment_index',
+    params={'self': Seq(Stmt), 'symbol': Sym},
+    returns=Option(Int),
+    ensures=[
+        f'implies(not any({IS} for s in self), result is None)',
+        f'implies(any({IS} for s in self), result is not None)',
+        'implies(result is not None, 0 <= val(result) < len(self))',
+        'implies(result is not None, self[val(result)].is_assignment and self[val(result)].symbol == symbol)',
+        'implies(result is not None, all(not (self[q].is_assignment and self[q].symbol == symbol)'
+        '                                for q in range(val(result) + 1, len(self))))',
+    ],
+)
+
+
+@M.native
+def mk_assign(symbol, expression):
+    from pharmpy.model import Assignment
+    return Assignment(symbol, expression)
+
+
+# reassign: walks the list backwards with a live reversed() iterator while deleting from it.
+# Proved for all statement lists: no index error and the iterator never leaves the list; nothing changes
+# when the symbol is not assigned; otherwise the result has EXACTLY ONE assignment of the symbol, it is
+# Assignment(symbol, expression), and everything before the first assignment of the symbol is untouched.
+# NOT proved here (bounded check b_stmts): the other statements keep their relative order.
+ISN = '(new[q].is_assignment and new[q].symbol == symbol)'
+ISS = '(self[q].is_assignment and self[q].symbol == symbol)'
+NEW = 'mk_assign(symbol, expression)'
+M.contract(
+    'Statements.reassign',
+    params={'self': Seq(Stmt), 'symbol': Sym, 'expression': ExprT},
+    returns=Seq(Stmt),
+    ensures=[
+        f'implies(not any({IS} for s in self), result == self)',
+        'len(result) <= len(self)',
+        # every assignment of the symbol in the result is the new one ...
+        f'all(not (result[q].is_assignment and result[q].symbol == symbol) or result[q] == {NEW} for q in range(len(result)))',
+        # ... there is at most one ...
+        'all(all(r <= q or not (result[q].is_assignment and result[q].symbol == symbol and result[r].is_assignment and result[r].symbol == symbol)'
+        '        for r in range(len(result))) for q in range(len(result)))',
+        # ... and at least one if the symbol was assigned before
+        f'implies(any({IS} for s in self), any(result[q].is_assignment and result[q].symbol == symbol for q in range(len(result))))',
+        # statements before the first assignment of the symbol keep their place
+        'all(implies(not any(self[r].is_assignment and self[r].symbol == symbol for r in range(q + 1)), q < len(result) and result[q] == self[q]) for q in range(len(self)))',
+    ],
+    # (ranges start at 0 with an explicit lower guard: index terms stay free of arithmetic, so they can
+    # serve as quantifier patterns)
+    loops=[Loop(counter='k', hints=['i == len(self) - 1 - k', 'stat == self[i]', 'stat == new[i]'], inv=[
+        'len(self) - k <= len(new) <= len(self)',
+        'all(new[q] == self[q] for q in range(len(self) - k))',
+        f'implies(last, all(q < len(self) - k or not {ISS} for q in range(len(self))))',
+        f'implies(not last, any(q >= len(self) - k and {ISS} for q in range(len(self))))',
+        'implies(last, len(new) == len(self) and all(new[q] == self[q] for q in range(len(self))))',
+        f'all(q < len(self) - k or not {ISN} or new[q] == {NEW} for q in range(len(new)))',
+        'all(all(q < len(self) - k or r <= q or not (new[q].is_assignment and new[q].symbol == symbol and new[r].is_assignment and new[r].symbol == symbol)'
+        '        for r in range(len(new))) for q in range(len(new)))',
+        # (counted from the END of the list: a deletion in front of it does not move the witness)
+        'implies(not last, any(d < len(new) - (len(self) - k) and new[len(new) - 1 - d].is_assignment and new[len(new) - 1 - d].symbol == symbol for d in range(len(new))))',
+        'all(implies(not any(self[r].is_assignment and self[r].symbol == symbol for r in range(q + 1)), q < len(new) and new[q] == self[q]) for q in range(len(self)))',
     ])],
 )
